@@ -46,7 +46,7 @@ Solve(A, f) ==                                  \* [ok, x];  a 0 x 0 system is s
         r == GJ([i \in 1..n |-> [j \in 1..(n + 1) |-> IF j <= n THEN A[i][j] ELSE f[i]]], n, 1)
     IN  [ok |-> r.ok, x |-> [i \in 1..n |-> r.M[i][n + 1]]]
 Regular(A) == Solve(A, ZeroV(Len(A))).ok
-Inverse(A) == LET n == Len(A) IN Transp([j \in 1..n |-> Solve(A, UnitV(n, j)).x], n)    \* A regular
+InverseM(A) == LET n == Len(A) IN Transp([j \in 1..n |-> Solve(A, UnitV(n, j)).x], n)    \* A regular
 
 \* a recorded dyadic fixed-point integer q (value q / 2^sh) against a rational
 FixEq(q, sh, a) == REq(Norm(q, 2 ^ sh), a)
